@@ -19,7 +19,8 @@ import (
 
 const interval = 100 * time.Second
 
-var items = []string{"a", "b", "c", "d"}
+// 16-byte items (the size the server records): two share their first 15 bytes, two their last 15
+var items = []string{"AAAAAAAAAAAAAAAa", "AAAAAAAAAAAAAAAb", "cZZZZZZZZZZZZZZZ", "dZZZZZZZZZZZZZZZ"}
 var tags = []string{"", "A", "B"}
 var advances = []time.Duration{interval * 4 / 10, interval * 6 / 10, interval + time.Second, 2*interval + time.Second}
 
